@@ -61,7 +61,7 @@ def r0(run, ctx):
     run.rule('R0', 'documented gate table')
     tab = doc_table(ctx)
     run.extra['documented_hooks'] = tab
-    run.count('R0', len(tab), 8, 'hooks documented in writing-hooks.rst')
+    run.count('R0', len(tab), 6, 'hooks documented in writing-hooks.rst')
     want = {'before_start': 'abort', 'after_start': 'abort', 'before_spawn': 'abort',
             'after_spawn': 'abort', 'before_stop': 'ignored', 'after_stop': 'ignored',
             'before_signal': 'signal-gate'}
@@ -413,7 +413,7 @@ def r6(run, ctx):
     defaults = [astq.const_value(e) for e in lst.value.elts]
     tested = _tested_hooks(ctx)
     run.extra['hooks_whose_result_is_tested'] = sorted(tested)
-    run.count('R6', len(tested), 4, 'hooks whose result is tested')
+    run.count('R6', len(tested), 3, 'hooks whose result is tested')
     for h in defaults:
         run.check('R6', h not in tested, "default ignore-failure member '%s' is a hook whose result "
                   "is never tested" % h, f, lst,
